@@ -6,9 +6,11 @@ EXTENDS PT_Meta, Json, IOUtils
 Events == ndJsonDeserialize(IOEnv.TRACE_FILE)
 VARIABLE i
 Init == i = 1
+(*   [kind |-> "paths", ids]                 ids = the texts (digests) of the four render paths of one statement          *)
 Ok(e) == IF e.kind = "agg" THEN IsAgg(e.tree) = e.obs
+         ELSE IF e.kind = "paths" THEN PathsAgree(e.ids)
          ELSE FoldCrit(e.parts) = [st |-> e.st, ids |-> e.ids]
-WantStr(e) == IF e.kind = "agg" THEN IsAgg(e.tree) ELSE FoldCrit(e.parts).st
+WantStr(e) == IF e.kind = "agg" THEN IsAgg(e.tree) ELSE IF e.kind = "paths" THEN "one-text" ELSE FoldCrit(e.parts).st
 Next == /\ i <= Len(Events)
         /\ IF Ok(Events[i]) THEN TRUE ELSE PrintT("V " \o ToJson([tid |-> Events[i].tid, want |-> WantStr(Events[i])]))
         /\ i' = i + 1
